@@ -1,7 +1,9 @@
 SPEC = {
     'id': 'C08', 'harness': 'hC08', 'coq_dir': 'C08', 'claimed': True,
-    'theorems': ['C08_refines_partial', 'C08_list_agrees_with_get', 'C08_refines_refuted'],
-    'check_imports': 'From Coq Require Import List NArith ZArith String Ascii Bool.\nFrom C33 Require Import Lib.Harness C07.Model C07.Check C08.Model.\n',
+    'theorems': ['C08_refines_partial', 'C08_list_agrees_with_get', 'C08_refines_refuted',
+                 'C08_handlers_isolated', 'C08_handlers_refine_partial', 'C08_handlers_machine_partial',
+                 'C08_handlers_machine_refuted'],
+    'check_imports': 'From Coq Require Import List NArith ZArith String Ascii Bool.\nFrom C33 Require Import Lib.Harness C07.Model C07.Check C08.Model C08.HModel.\n',
     'allowed_axioms': [],
     'shard': 40,
     'rule': 'histories of 4..50 (thorough: 4..80) operations (short ones first) over a base database (GoMemDB, every 4th an on-disk GoLevelDB) '
@@ -11,20 +13,42 @@ SPEC = {
             'empty or pool continuation key; counts 0,1,2,3,-1; direction words 0,1,4,5,8,9,2,3,12; the seek request), PrefixCount 8%. '
             'Unrestricted stream: histories listing the prefix whose upper bound is types.EmptyValue (known finding 1). '
             'Observables per operation: Get value / ErrNotFoundInDb / other error, listed items, count, panic. '
+            'Handler streams (case CHand): histories of 6..44 (thorough: 6..70) EventLocal* requests served by the blockchain module of a '
+            'test node (one node with a memdb and one with a goleveldb block store, miner stopped), base entries written into the '
+            'block-store database under a marker byte 01 (range emptied per history), up to ~5 transaction ids open at once: New 8% '
+            '(1/6 read-only), Close 5%, Begin 9%, Commit 7%, Rollback 6%, Set 22% (0..3 pairs), Get 17% (0..3 keys), List 16%, '
+            'PrefixCount 10% (raw message, asked on behalf of a chosen id); ids: 80% an open one, else 0, a closed one, one not handed '
+            'out yet, negative; ids are relative to the pointer counter read by a New/Close probe before the history. '
+            'hand-exec: 1..3 executor.NewLocalDB objects over a recording client API driven with Begin/Set/Get/List/Commit/Rollback/'
+            'StartTx/Close calls - the recorded handler-level requests and replies form the case. hand-edge: 6 fixed scripts (count inside a '
+            'transaction, unknown/closed/non-positive ids, read-only Set panic, two transactions). Observables per request: id handed '
+            'out, ok, error class (ErrPointerNotFound / ErrNotSetInTransaction / recovered panic / other), values (nil = empty), items, count. '
             'non-trivial = some Get or List of the history returned data; distinct = distinct Gallina case terms',
     'trusted_base': ['C07\'s trusted base (goleveldb iterators as an oracle, model of ListHelper / mergedIterator tied by correspondence)',
                      'GoMemDB / GoLevelDB point operations are an oracle: Set(k, nil) stores the empty value, Get of a missing key = ErrNotFoundInDb',
                      'the Gallina model coq/theories/C08/Model.v is tied to common/db/localdb.go by the differential check only; '
                      'the mutex is not modelled (histories are sequential)',
-                     'blockchain/localdb.go (EventLocal* handlers) only dispatches to LocalDB by transaction id and is not driven by the harness',
+                     'blockchain/localdb.go + common.StorePointer/GetPointer/RemovePointer: the Gallina model coq/theories/C08/HModel.v (dispatch written '
+                     'once, instantiated with the LocalDB model and with the specification database) is tied to the handlers by the differential check '
+                     'through the queue of a test node; requests are issued sequentially (the per-message goroutines, reqnum and the pointer-table mutex are '
+                     'not modelled); transaction ids are compared relative to the counter value at the start of a history (nobody else allocates ids meanwhile)',
+                     'the block-store database holds the chain\'s own keys besides the base: histories stay inside the marker range [01, 02) and the model is given only that range',
+                     'a nil and an empty value in LocalReplyValue are the same observable (same protobuf encoding)',
+                     'executor.LocalDB (caches on top of the handlers) is C11\'s model; here it only produces realistic request sequences',
                      'Coq kernel + vm_compute (refutation witness, Example, case evaluation)'],
     'assumptions': ['the base database is not written while the LocalDB is in use (LocalDB never writes it)',
                     'Begin inside an open transaction discards that transaction\'s writes and starts a new one (the code does so; the specification follows it)',
                     'keys and prefixes are byte strings; List / PrefixCount prefixes satisfy C07\'s guard prefix_ok (C08_refines_refuted shows the '
                     'refinement fails for the one prefix whose upper bound is types.EmptyValue; known finding C08-emptyvalue-prefix-open-range)',
-                    'Set in read-only mode panics in both model and specification; other I/O errors are not modelled'],
+                    'Set in read-only mode panics in both model and specification; other I/O errors are not modelled',
+                    'message layer: every EventLocalNew owns one specification database over the shared base (nothing is ever written to the base), '
+                    'requests without a transaction id read the base, EventLocalPrefixCount asked on behalf of transaction i must count what i reads '
+                    '(C08_handlers_machine_refuted: it counts the raw database; known finding C08-handler-prefixcount-ignores-transaction; '
+                    'C08_handlers_machine_partial guards counts to transactions that are never sent a non-empty Set)'],
     'manifest': {'level_text': 'partial only through C07\'s prefix guard: full refinement of the (base, committed overlay, open transaction) '
-                               'specification for every history whose listing prefixes do not have types.EmptyValue as upper bound',
+                               'specification for every history whose listing prefixes do not have types.EmptyValue as upper bound; the same per transaction '
+                               'id through the EventLocal* handlers (unguarded isolation theorem: other ids never influence a transaction\'s replies); '
+                               'the handler-level prefix count is outside (refuted: it ignores the transaction)',
                  'level_note': 'unbounded Coq refinement theorem over all operation histories (both modes) about an executable model of LocalDB on top of '
                                'C07\'s merged-listing model; backends are oracles; model tied to the Go code by the correspondence check',
                  'technique': 'Coq proof (refinement by invariant over op histories) + in-kernel correspondence check'},
